@@ -56,6 +56,9 @@ func normMsg(s string) string {
 	// names of generated things
 	s = regexp.MustCompile(`gen\.[a-z]\.v[0-9](\.sub)?\.[A-Za-z0-9_.]+`).ReplaceAllString(s, "<name>")
 	s = regexp.MustCompile(`gen\.[a-z]\.v[0-9](\.sub)?`).ReplaceAllString(s, "<pkg>")
+	if i := strings.Index(s, "values of type google.protobuf.Duration are not supported"); i >= 0 {
+		return "values of type google.protobuf.Duration are not supported"
+	}
 	s = regexp.MustCompile(`field [A-Za-z0-9_.]+: `).ReplaceAllString(s, "field <path>: ")
 	s = regexp.MustCompile(`field [A-Za-z0-9_]+ is already set`).ReplaceAllString(s, "field <name> is already set")
 	s = reNum.ReplaceAllString(s, "N")
